@@ -283,7 +283,7 @@ pub fn main(args: &[String]) {
     for i in 0..n {
         let target = targets[i % 3];
         let prof = crate::c05::profile_of(target, false);
-        let avoid = crate::tygen::Avoid { noncustom_result_err: target == "js", byte_slices: false, callbacks_on_methods_with_self: false };
+        let avoid = crate::tygen::Avoid { noncustom_result_err: target == "js", byte_slices: false, callbacks_on_methods_with_self: false, ..Default::default() };
         let m = Gen::valid_module_avoiding(&mut rng, prof, avoid);
         let plain = m.rust();
         let mut src = plain.clone();
